@@ -10,5 +10,5 @@ def run(ctx):
     corpus = [(c["prog"], c["crash_at"]) for c in json.load(open(os.path.join(os.path.dirname(__file__), "..", "C06", "corpus.json")))]
     for r in RUNS:
         r["ticks"] = tuple(r["ticks"])
-    kprops.kernel_check(ctx, "C03", runs=RUNS, preds=['C03', 'C06'], corpus=corpus,
+    kprops.kernel_check(ctx, "C03", runs=RUNS, preds=['C03', 'C03e', 'C06'], corpus=corpus,
                         rule="random multi-framer kernel programs with stop/abort bids; an exception or a KeyboardInterrupt is injected at a random recorder action (every program of the 'crash' batch) or the run is cut between two ticks; full traces (incl. the final abort sweep) compared with the Coq model; implementation-only statement: every scheduled tasker ends aborted, none aborted twice in the sweep, enter/exit alternate and (without a crash) every entered frame of a scheduled framer is exited. Non-trivial = outline change and > 6 events")
